@@ -6,7 +6,7 @@ symbolically (as for C14): on every path that returns an array, the array's vari
 (planner/rules/type_.rs) assigns to the same expression over columns of the operand types (asked through the driver).
 The INSERT clauses of the property (NOT NULL, lossless conversion) have no code of their own to interpret: the
 conversion is the `cast` kernel (decided under C14) and NOT NULL is probed end to end."""
-import itertools, json, multiprocessing as mp, time
+import itertools, json, multiprocessing as mp, re, time
 from vlib.common import Report, rl, Inconclusive
 from . import engine, c14
 
@@ -81,6 +81,7 @@ def main(tier, only=None):
         rep.obligation(out_c == 'known')
     if not only:
         insert_probes(rep)
+        values_probes(rep)
     rep.cov['functions_encoded'] = sorted(f for f in fns if 'array' in f or 'ops' in f)[:60] + ['static types: Binder + planner/rules/type_.rs through the driver (`plans`)']
     rep.cov['states'], rep.cov['transitions'] = max(states, 1), max(transitions, 1)
     rep.cov.setdefault('traces_validated_against_impl', rep.cov['disagreements_checked'])
@@ -106,6 +107,66 @@ def replay(ddl, q, arm):
     import re
     m = re.match(r'STRUCT\((\w+)\)$', how['static'])
     return {'reproduced': bool(m) and STATIC.get(m.group(1)) != how['runtime'][0], 'how': how}
+
+
+def values_probes(rep):
+    """VALUES lists whose rows have different literal types (the wide one first, in the middle, last): the derived column type
+    must hold every row, the runtime type must be the derived one, and every value must come back unchanged -- as a bare
+    query and as the source of an INSERT into a column of the wide type.  Concrete probes of the type checker's union rule."""
+    import itertools
+    from decimal import Decimal
+    sets = [('BIGINT', ['1', '3000000000', '-3']), ('DECIMAL(20,2)', ['1', '2.5', '3']), ('INT', ['1', 'NULL', '3']), ('VARCHAR', ["'a'", 'NULL', "'c'"])]
+    n = ok = 0
+    seen = set()
+    for wide, lits in sets:
+        for perm in itertools.permutations(range(3)):
+            vals = [lits[i] for i in perm]
+            q = 'select * from (values %s)' % ', '.join('(%s)' % v for v in vals)
+            stmts = ['create table w(x %s)' % wide, q, 'insert into w values %s' % ', '.join('(%s)' % v for v in vals), 'select x from w']
+            out, rc, err = rl('sql', {'engine': 'mem', 'stmts': stmts})
+            res = {o['sql']: o for o in out if 'sql' in o}
+            pl, _, _ = rl('plans', {'setup': [], 'queries': [q], 'configs': [{'name': 'mem'}]})
+            st = [o for o in pl if o.get('sql') == q]
+            static = (st[0].get('opt', {}).get('mem') or {}).get('type') if st else None
+
+            def norm(x):
+                if x is None or x == 'NULL':
+                    return None
+                x = x.strip("'")
+                try:
+                    return str(Decimal(x).normalize())
+                except Exception:
+                    return x
+            want = [norm(v) for v in vals]
+            for label, sql in (('query', q), ('insert', 'select x from w')):
+                n += 1
+                o = res.get(sql)
+                problem = None
+                if o is None or not o.get('ok') or o.get('panicked'):
+                    ins = res.get(stmts[2])
+                    problem = 'fails: %s' % (((o or {}).get('err')) or ((ins or {}).get('err')) or 'panic')
+                else:
+                    got = [norm(r[0]) for r in o['rows']]
+                    if got != want:
+                        problem = 'returns %s' % got
+                    elif label == 'query' and static and o.get('types'):
+                        m = re.match(r'STRUCT\((\w+)', static)
+                        rt = o['types'][0]
+                        names = {'INT': 'Int32', 'BIGINT': 'Int64', 'BOOLEAN': 'Bool', 'SMALLINT': 'Int16', 'DOUBLE': 'Float64', 'DECIMAL': 'Decimal', 'VARCHAR': 'String', 'STRING': 'String'}
+                        if m and names.get(m.group(1)) and names[m.group(1)] != rt and rt != 'Null':
+                            problem = 'runtime type %s, static type %s' % (rt, static)
+                if problem is None:
+                    ok += 1
+                    continue
+                pos = ['first', 'middle', 'last'][vals.index(lits[1])]
+                key = 'values:%s:%s:odd-row-%s' % (label, wide.split('(')[0], pos)
+                if key in seen:
+                    continue
+                seen.add(key)
+                what = '`%s`%s: %s; the rows are %s' % (q, '' if label == 'query' else ' inserted into a %s column' % wide, problem, want)
+                outc = rep.counterexample(key, what[:500], {'stmts': stmts, 'static': static, 'result': o}, True)
+                rep.obligation(outc == 'known')
+    rep.cov['values_probes'] = {'checked': n, 'agreeing': ok, 'note': 'VALUES lists mixing literal types in every row order; concrete probes, not a solver decision'}
 
 
 def insert_probes(rep):
